@@ -1,4 +1,5 @@
 import DefraModel.Ident.Cbor
+import DefraModel.Ident.SchemaSets
 open Defra Defra.Ident
 
 namespace Driver.Ident
@@ -12,6 +13,25 @@ def parseFV (s : String) : Option FV :=
   else if s.startsWith "s" then (Bytes.ofHex (if (s.drop 1).toString == "" then "-" else (s.drop 1).toString)).map .str
   else none
 
+/-- `sets A->B+C,B->,C->A`: the schema sets of the type graph (edges as the schema descriptions hold them), every
+    type with the first member of its set and its index among the members sorted by name; `-` for a set of one.
+    `HYPOTHESIS-FALSE` would mean the closure did not reach its fixed point (the theorems then say nothing). -/
+def setsLine (spec : String) : String :=
+  let defs := (spec.splitOn ",").map (fun d => match d.splitOn "->" with
+    | [n, rs] => (n, (rs.splitOn "+").filter (· ≠ ""))
+    | _ => (d, []))
+  let names := (defs.map (·.1)).toArray.qsort (· < ·) |>.toList
+  let idx (n : String) : Nat := (names.findIdx (· == n))
+  -- references to types that are not defined map to an index beyond the nodes (dropped by `succs`)
+  let g : SchemaSets.G := defs.map (fun (n, rs) => ⟨idx n, rs.map idx⟩)
+  let hyp := SchemaSets.allClosedB g
+  let parts := names.map (fun n =>
+    let members := ((SchemaSets.setOf g (idx n)).toArray.qsort (· < ·)).toList
+    match members with
+    | [_] => s!"{n}=-"
+    | _ => s!"{n}={names.getD (members.headD 0) "?"}#{members.findIdx (· == idx n)}")
+  " ".intercalate parts ++ (if hyp then "" else " HYPOTHESIS-FALSE")
+
 def step (toks : List String) : String :=
   match toks with
   | "docbytes" :: fields =>
@@ -20,6 +40,7 @@ def step (toks : List String) : String :=
       | _ => none)
     if parsed.length != fields.length then "bad-op" else Bytes.render (docBytes parsed)
   | "schema" :: _ => "ok"
+  | ["sets", spec] => setsLine spec
   | _ => "bad-op"
 
 end Driver.Ident
